@@ -582,5 +582,73 @@ func famFunc(quick bool) []*prog.Case {
 			}))
 		}
 	}
+	// closures over a variable that was assigned BEFORE the literal is created (and only read
+	// afterwards, so by-value and by-reference capture agree): parameters live in registers
+	// until their first assignment spills them, which is where a capture can pick up a stale copy
+	for _, t := range []fl.TInt{fl.I32, fl.I64, fl.U8} {
+		for _, kind := range []string{"param", "param2", "local", "recv-param"} {
+			for _, asg := range []string{"assign", "op-assign", "incdec", "if-assign", "loop-assign", "two-assigns"} {
+				for _, use := range []string{"call", "call-then-read", "call-twice"} {
+					t, kind, asg, use := t, kind, asg, use
+					out = append(out, mk(fmt.Sprintf("C01/closure-assigned/%s/%s/%s/%s", t, kind, asg, use), func(k K) *fl.Program {
+						p := &fl.Program{}
+						n := fl.V("n")
+						var body []fl.Stmt
+						if kind == "local" {
+							body = append(body, &fl.Let{Name: "n", T: t, Init: fl.V("start")})
+						}
+						switch asg {
+						case "assign":
+							body = append(body, &fl.Assign{LHS: n, RHS: fl.B("+", n, fl.L(t, 7))})
+						case "op-assign":
+							body = append(body, &fl.OpAssign{Op: "*=", LHS: n, RHS: fl.L(t, 3)})
+						case "incdec":
+							body = append(body, &fl.IncDec{LHS: n, Inc: true})
+						case "if-assign":
+							body = append(body, &fl.If{Cond: fl.B(">", n, fl.L(t, 2)), Then: []fl.Stmt{&fl.Assign{LHS: n, RHS: fl.B("-", n, fl.L(t, 2))}}})
+						case "loop-assign":
+							body = append(body, &fl.Let{Name: "i", T: fl.I32, Init: fl.L(fl.I32, 0)},
+								&fl.While{Cond: fl.B("<", fl.V("i"), fl.L(fl.I32, 3)), Body: []fl.Stmt{&fl.OpAssign{Op: "+=", LHS: n, RHS: fl.L(t, 5)}, &fl.IncDec{LHS: fl.V("i"), Inc: true}}})
+						case "two-assigns":
+							body = append(body, &fl.Assign{LHS: n, RHS: fl.B("+", n, fl.L(t, 1))}, fl.P(n), &fl.Assign{LHS: n, RHS: fl.B("*", n, fl.L(t, 2))})
+						}
+						lit := &fl.FuncLit{Params: []fl.Param{{"d", t}}, Ret: t, Body: []fl.Stmt{&fl.Return{X: fl.B("+", n, fl.V("d"))}}}
+						body = append(body, &fl.Let{Name: "plus", Init: lit})
+						call := func(v int64) fl.Expr { return &fl.Call{Fn: "plus", Args: []fl.Expr{fl.L(t, v)}} }
+						switch use {
+						case "call":
+							body = append(body, &fl.Return{X: call(1)})
+						case "call-then-read":
+							body = append(body, fl.P(call(1)), &fl.Return{X: n})
+						case "call-twice":
+							body = append(body, fl.P(call(1)), &fl.Return{X: call(2)})
+						}
+						f := &fl.Func{Name: k.N("f"), Ret: t, Body: body}
+						args := []fl.Expr{fl.L(t, 4)}
+						switch kind {
+						case "param":
+							f.Params = []fl.Param{{"n", t}}
+						case "param2":
+							f.Params = []fl.Param{{"a", fl.I64}, {"n", t}}
+							args = []fl.Expr{fl.L(fl.I64, 99), fl.L(t, 4)}
+						case "local":
+							f.Params = []fl.Param{{"start", t}}
+						case "recv-param":
+							st := &fl.TStruct{Name: k.N("R"), Fields: []fl.Field{{"A", fl.I32}}}
+							p.Structs = append(p.Structs, st)
+							f.Name = "run"
+							f.Recv = &fl.Param{Name: "self", T: st}
+							f.Params = []fl.Param{{"n", t}}
+							p.Funcs = append(p.Funcs, f)
+							recv := &fl.StructLit{T: st, Vals: []fl.Expr{fl.L(fl.I32, 1)}}
+							return mainProg(p, &fl.Let{Name: "r", Init: recv}, fl.P(&fl.MCall{Recv: fl.V("r"), Name: "run", Args: args}))
+						}
+						p.Funcs = append(p.Funcs, f)
+						return mainProg(p, fl.P(fl.C(k.N("f"), args...)))
+					}))
+				}
+			}
+		}
+	}
 	return out
 }
